@@ -595,7 +595,12 @@ class AsyncFIXConnection:
             return "MsgSeqNum(34) tag is invalid"
         if msg_seq_num < self._session.next_num_in:
             _is_err = True
-            if msg.msg_type == FMsg.SEQUENCERESET:
+            if (
+                msg.msg_type == FMsg.SEQUENCERESET
+                and msg.get(FTag.GapFillFlag, None) != "Y"
+            ):
+                # reset mode ignores its own MsgSeqNum (gap fill is a part of the
+                #   message sequence as any other message)
                 _is_err = False
             if self._connection_state == ConnectionState.RESENDREQ_AWAITING:
                 _is_err = False
